@@ -372,6 +372,12 @@ class Check:
 
     def finish(self, explanation, rule_text, extra_cov=None):
         wall = time.time() - self.t0
+        rk = getattr(self, "replay_key", None)
+        if rk:
+            # replay mode: re-evaluated on the current tree; report only the replayed instance
+            self.violations = [v for v in self.violations if (v[1], v[0]) == tuple(rk)]
+            if not self.violations:
+                print("replay: instance %s / %s does not violate on the current tree" % tuple(rk))
         outdir = os.path.join(VERIF, "out", "violations", self.prop)
         replay_paths = []
         if self.violations:
